@@ -117,12 +117,16 @@ def show_opt_pos(p):
     return "None" if p is None else C.show_pos(p)
 
 
-def tracker_line(opt, tape_left=0):
+def tracker_core(opt):
     valid = "[" + ",".join(show_opt_pos(p) + ":" + tok_f(s) for p, s in zip(opt.positions_valid, opt.scores_valid)) + "]"
-    eps = getattr(opt, "epsilon_mod", 1)
-    return (f"tracker new={show_opt_pos(opt.pos_new)}:{tok_f(opt.score_new)} cur={show_opt_pos(opt.pos_current)}:{tok_f(opt.score_current)} "
+    return (f"new={show_opt_pos(opt.pos_new)}:{tok_f(opt.score_new)} cur={show_opt_pos(opt.pos_current)}:{tok_f(opt.score_current)} "
             f"best={show_opt_pos(opt.pos_best)}:{tok_f(opt.score_best)} valid={valid} "
-            f"nthTrial={opt.nth_trial} nthInit={opt.nth_init} epsMod={tok_rat(eps)} tapeLeft={tape_left}")
+            f"nthTrial={opt.nth_trial} nthInit={opt.nth_init}")
+
+
+def tracker_line(opt, tape_left=0):
+    eps = getattr(opt, "epsilon_mod", 1)
+    return f"tracker {tracker_core(opt)} epsMod={tok_rat(eps)} tapeLeft={tape_left}"
 
 
 def run_local_scenario(spec):
@@ -161,6 +165,70 @@ def run_local_batch(specs):
     all_lines = []
     for s in specs:
         o = run_local_scenario(s)
+        outs.append((s, o))
+        all_lines += o["lines"] + ["mark"]
+    got = C.run_driver(all_lines) if all_lines else []
+    chunks, cur = [], []
+    for l in got:
+        if l == "----":
+            chunks.append(cur)
+            cur = []
+        else:
+            cur.append(l)
+    for (s, o), ch in zip(outs, chunks):
+        o["got"] = ch
+        o["diff"] = drv.compare(o["lines"], o["expect"], ch)
+    return outs
+
+
+# ----------------------------------------------------------------------------- GridSearchOptimizer (GFO.Model.GridBackend)
+
+def run_grid_scenario(spec):
+    assert spec["opt"] == "GridSearchOptimizer"
+    tape = Tape()
+    holder = {}
+
+    def on_built(opt):
+        holder["init_l"] = [[int(x) for x in p] for p in opt.init.init_positions_l]
+        inner = opt.grid_search_opt
+        for conv in {id(opt.conv): opt.conv, id(inner.conv): inner.conv}.values():
+            orig_nic = conv.not_in_constraint
+
+            def not_in_constraint(pos, _orig=orig_nic):
+                ok = _orig(pos)
+                tape.add("f", _ipos(pos) + (" 1" if ok else " 0"))
+                return ok
+            conv.not_in_constraint = not_in_constraint
+    with module_patches(tape):
+        out = scen.run_scenario(spec, with_model=False, on_built=on_built)
+    real = out["real"]
+    opt, rec, records, space = real["opt"], real["rec"], real["records"], real["space"]
+    inner = opt.grid_search_opt
+    size, nd = int(opt.conv.search_space_size), int(opt.conv.n_dimensions)
+    dir_start = int(np.round(np.power(size, 1 / nd)))
+    gnew = (f"gnew {opt.init.n_inits} {opt.direction} {int(opt.step_size)} {dir_start} "
+            f"{len(holder['init_l'])} " + " ".join(" ".join(str(x) for x in p) for p in holder["init_l"])).rstrip()
+    f = real["f"]
+    lines, expect = drv.encode_history(space, opt.init.n_inits, opt, rec, records, (lambda k, para: f(para)),
+                                       local=dict(lnew=gnew, tape=tape.lines))
+    raised = any(r["exc"] is not None for r in records)
+    if not raised:
+        lines.append("gstate")
+        expect.append("outer " + tracker_core(opt))
+        expect.append("inner " + tracker_core(inner))
+        dc = getattr(inner, "direction_calc", None)
+        expect.append(f"grid ptr={int(getattr(inner, 'high_dim_pointer', 0))} direction={'None' if dc is None else int(dc)} tapeLeft=0")
+    out.update(lines=lines, expect=expect)
+    out["tape_kinds"] = dict(tape.kinds)
+    out["tape_len"] = len(tape.lines)
+    return out
+
+
+def run_batch(specs, runner):
+    outs = []
+    all_lines = []
+    for s in specs:
+        o = runner(s)
         outs.append((s, o))
         all_lines += o["lines"] + ["mark"]
     got = C.run_driver(all_lines) if all_lines else []
